@@ -505,6 +505,42 @@ class _Canon(ast.NodeTransformer):
                     out[st.targets[0].id] = tuple(fv)
         return {k: v for k, v in out.items() if seen.get(k, 0) == 1 and v}
 
+    @staticmethod
+    def _dataclass_records(mod, taken):
+        """{class name: (field, ..)} of the module-level `@dataclass` classes that are plain value records: annotated fields only (no
+        `field(..)` defaults with factories), no hand-written __init__ / __post_init__ / __new__ / __setattr__ / __getattr__, not
+        subclassing anything, and frozen or with no attribute of a field's name stored anywhere in the module"""
+        out = {}
+        stored = {x.attr for x in ast.walk(mod) if isinstance(x, ast.Attribute) and isinstance(x.ctx, (ast.Store, ast.Del))}
+        dyn = any(isinstance(x, ast.Call) and isinstance(x.func, ast.Name) and x.func.id in ("setattr", "delattr") for x in ast.walk(mod))
+        count = {}
+        for st in mod.body:
+            if isinstance(st, (ast.ClassDef, ast.FunctionDef)):
+                count[st.name] = count.get(st.name, 0) + 1
+        for st in mod.body:
+            if not isinstance(st, ast.ClassDef) or st.bases or st.keywords or count.get(st.name) != 1 or st.name in taken or len(st.decorator_list) != 1:
+                continue
+            d = st.decorator_list[0]
+            dn = ast.unparse(d.func if isinstance(d, ast.Call) else d)
+            if dn not in ("dataclass", "dataclasses.dataclass"):
+                continue
+            frozen = isinstance(d, ast.Call) and any(k.arg == "frozen" and isinstance(k.value, ast.Constant) and k.value.value is True for k in d.keywords)
+            if isinstance(d, ast.Call) and (d.args or any(k.arg not in ("frozen", "eq", "order", "repr", "slots") for k in d.keywords)):
+                continue
+            fields, plain = [], True
+            for b in st.body:
+                if isinstance(b, ast.AnnAssign) and isinstance(b.target, ast.Name):
+                    fields.append(b.target.id)
+                    if b.value is not None and not isinstance(b.value, ast.Constant):
+                        plain = False
+                elif isinstance(b, ast.FunctionDef) and b.name in ("__init__", "__post_init__", "__new__", "__setattr__", "__getattr__", "__getattribute__"):
+                    plain = False
+                elif isinstance(b, ast.Assign):
+                    plain = False
+            if fields and plain and (frozen or (not dyn and not (set(fields) & stored))):
+                out[st.name] = tuple(fields)
+        return out
+
     def visit_Module(self, n):
         # module-level tables `_NAME = (<literals>)` bound once and never mutated: a loop `for a, b in _NAME` inside a function
         # of the module is as static as one over a local literal (normalize.unroll_static_loops)
@@ -514,9 +550,19 @@ class _Canon(ast.NodeTransformer):
         # record types of the module (typing.NamedTuple classes, collections.namedtuple(..) bindings): name -> field names, attached to
         # every function of the module so that value reconstruction (valueflow.Flow) can project `R(a, b).field` to the argument
         recs = self._records(n)
+        # ... and frozen / never re-assigned dataclasses of the module (fields in declaration order, generated __init__ only); the plain
+        # methods of a record class are attached too, so that `R(a, b).method(x)` can be read as the method's value for that record
+        recs.update(self._dataclass_records(n, recs))
+        rec_methods = {}
+        for st in n.body:
+            if isinstance(st, ast.ClassDef) and st.name in recs:
+                ms = {m.name: m for m in st.body if isinstance(m, ast.FunctionDef) and not m.decorator_list and not (m.name.startswith("__") and m.name.endswith("__"))}
+                if ms:
+                    rec_methods[st.name] = ms
         for x in ast.walk(n):
             if isinstance(x, (ast.FunctionDef, ast.AsyncFunctionDef)):
                 x._sa_records = recs
+                x._sa_record_methods = rec_methods
         # how this module spells the itertools functions (used by _itertools)
         self._it_mods, self._it_names = {"itertools"}, {}
         bound = {}
